@@ -1,4 +1,4 @@
-HOOK_COMMITS = ["9fed477"]
+HOOK_COMMITS = ["9fed477", "defb590", "9e93c9f"]
 NOT_APPLICABLE = {}
 
 TECH = "Lean 4 theorems over an executable model + differential correspondence (Rust harness vs native Lean driver) + constant/ordering translator"
@@ -11,7 +11,7 @@ CLAIMS = {
   "note": BASE_NOTE + "Partial: pairing in the trapdoor view; the end-to-end theorem 'model prover output is accepted by the model verifier' is checked executably on every case (spec=ok) and proved only in its algebraic parts; degenerate blinders excluded as the property allows.",
   "technique": TECH},
  "C02": {
-  "text": "Deterministic core of soundness: the verifier model (transcript from bytes, regrouped MSM == textbook equation, trapdoor pairing) decides every adversarial proof exactly as the real verifier does: forced proofs of violating instances (hook), forged commitments/evaluations, splices, degenerate proofs are all rejected. Theorems: verifier algebra (C03), KZG opening exactness (C20), row semantics (C05/C08-C14).",
+  "text": "16 theorems (algebraic core with explicit bad-challenge sets: accumulator telescopes => grand product; identity at one point outside <= max(deg) roots lifts to the polynomial identity; a violated row defeats EVERY candidate quotient outside the bad set; challenge separation alpha / widget level; soundness_algebraic + soundness_witness: quotient identity at one good point => the extracted assignment satisfies the model's sysSat and has no copy violation; the verifier's linearisation identity IS the quotient identity; forged evaluations rejected (honest witness, model functions, and AGM form)). Deterministic core of soundness: the verifier model (transcript from bytes, regrouped MSM == textbook equation, trapdoor pairing) decides every adversarial proof exactly as the real verifier does: forced proofs of violating instances (hook), forged commitments/evaluations, splices, degenerate proofs are all rejected. Forced proofs also cover rows whose identity components cancel pairwise.",
   "note": BASE_NOTE + "Partial by nature: soundness is computational (KZG knowledge soundness, AGM, Fiat-Shamir are assumptions); what is proved is the algebraic core with explicit bad-challenge sets.",
   "technique": TECH},
  "C03": {
@@ -67,15 +67,15 @@ CLAIMS = {
   "note": BASE_NOTE + "Partial: MessagePack/deflate are external and not modelled; relabelling-invariance of sigma is proved for the model (relabel_sigma).",
   "technique": TECH},
  "C16": {
-  "text": "Round trips: prover/verifier bytes -> decode -> identical bytes, identical proofs from the same RNG stream, identical verifier decisions (route flag on every C01 case incl. a circuit whose q_m interpolant loses its top coefficient: defect found and fixed); proof decoder canonical (accepted bytes re-encode to themselves; checked on every mutated proof); model codecs for proof / verifier key / opening key / verifier framing compared byte for byte.",
-  "note": BASE_NOTE + "fix: 9388e48 (ProverKey buffer sizing). Codec theorems for the model decoders are pending.",
+  "text": "25 theorems (little/big-endian byte codecs, scalar, compressed and raw G1 (F_p square root proved; P, R, R_J prime by Pratt certificates), proof / verifier key / opening key / verifier / public parameters / evaluations / raw commit key / prover key / prover: decode(encode x) = x and accepted bytes re-encode canonically). Round trips: prover/verifier bytes -> decode -> identical bytes, identical proofs from the same RNG stream, identical verifier decisions (route flag on every C01 case incl. a circuit whose q_m interpolant loses its top coefficient: defect found and fixed); proof decoder canonical (accepted bytes re-encode to themselves; checked on every mutated proof); model codecs for proof / verifier key / opening key / verifier framing compared byte for byte.",
+  "note": BASE_NOTE + "fix: 9388e48 (ProverKey buffer sizing). G2 decompression round trip (F_p^2 square root of the external crate) is a hypothesis of the three theorems that contain a G2 point; discharged by kernel evaluation for the generator.",
   "technique": TECH},
  "C17": {
-  "text": "Structure-aware mutation of valid encodings of provers, verifiers, proofs, public parameters, commit keys and compressed circuits in a debug-assertions + overflow-checks build: every case returns a value or an error (no panic), allocation bounded, accepted values usable; verifier/proof decoders additionally compared with the model decoders.",
+  "text": "16 theorems (every accepted value is well formed: points on curve / in subgroup / not identity where required, scalars canonical, raw points canonical, domain sizes powers of two < 2^32, exact byte counts consumed; work bounds: exactly k items and 48k / 32k bytes read; exact NotEnoughBytes conditions). Structure-aware mutation of valid encodings of provers, verifiers, proofs, public parameters, commit keys and compressed circuits in a debug-assertions + overflow-checks build: every case returns a value or an error (no panic), allocation bounded, accepted values usable; verifier/proof decoders additionally compared with the model decoders.",
   "note": BASE_NOTE + "Partial: hangs and real peak memory are observed, not proved.",
   "technique": TECH},
  "C18": {
-  "text": "Theorems: the parallel butterfly equals the serial one for every thread count (all three arms of the FFT switch), quotient/permutation loops are index-wise maps; correspondence: the real prover under rayon pools of different sizes, repeated runs and fresh processes produces the bytes of the (sequential, deterministic) Lean specification prover.",
+  "text": "20 theorems (all three arms of the FFT switch and every chunk / piece schedule agree with the serial kernel; sigma independent of the hash-map visiting order; public-input rows strictly increasing for every gadget so sorting is the identity for any insertion order; chunked maps = index-wise maps for the quotient and permutation loops; any reduction tree of the barycentric sum; compileWith/proveWith threads = compile/prove). Theorems: the parallel butterfly equals the serial one for every thread count (all three arms of the FFT switch), quotient/permutation loops are index-wise maps; correspondence: the real prover under rayon pools of different sizes, repeated runs and fresh processes produces the bytes of the (sequential, deterministic) Lean specification prover.",
   "note": BASE_NOTE + "Partial: real interleavings, the label-cache mutex and memory-model effects are outside any executable model; Rust's data-race freedom for safe code is trusted.",
   "technique": TECH},
  "C19": {
